@@ -250,6 +250,7 @@ class Builder:
         cut = rng.choice(["none", "none", "none", "avps", "hdr"])
         base = len([1 for i, _ in self.sim.app_requests if i == 0])
         msgs = [nodegen.ccr(self.n(), self.n(), host) for _ in range(nreq)]
+        self.last_req = (c, self.id - 1)
         if len(msgs) > 1:
             self.ev(f"rx {c} " + " ".join(msgs[:-1]))
         whole = self.partial(c, msgs[-1], cut)
@@ -280,9 +281,12 @@ class Builder:
         conn = self.nconn()
         base = len([1 for i, _ in self.sim.app_requests if i == 0])
         ids = self.n() + 100
-        if self.id > 40 and self.rng.random() < 0.4:
-            # hop-by-hop ids belong to a connection: the probing peer may use the ones of the last request again
-            ids = self.id - 1 - 1 - 10
+        lc, lh = getattr(self, "last_req", (None, None))
+        gone = lc is not None and lc < len(self.sim.conns) and self.sim.conns[lc].ident not in self.sim.node.connections
+        if gone and self.rng.random() < 0.5:
+            # hop-by-hop ids belong to a connection: the probing peer may use those of the last request of a connection that
+            # has ended again (equal ids on two *live* connections are the recorded finding K2 of C09, not generated here)
+            ids = lh - 10
         # the peer whose connections were all cut comes back itself, otherwise another peer connects
         peer = "peer1.x" if not self.open1 and self.rng.random() < 0.7 else "peer3.x"
         self.evs.append(f"mark probe:{conn}:{base}:{self.limit}:{self.kind}:{ids}:{peer}")
